@@ -410,6 +410,18 @@ def classify(case: str, out: str):
 # ----------------------------------------------------------------------------------------------
 # cases (all numbers in ticks of 0.25 s unless the period form says otherwise)
 
+
+def extra_obligations():
+    """`_AsyncThrottle.__call__` regenerated from /repo's throttling.py as MiniPy pieces (`async with self._lock:` pre / one
+    iteration of the clean-up loop / post, then the call of the function): Lean re-checks one obligation per loop-free piece, the
+    committed induction over the entries and the composition (`Bridge.Throttle.critical_of_parts`) give: for every entry list,
+    limit, period, instant the method ends with the entries, clock and start instant of `Throttle.process`, sleeps at most once,
+    and calls the function exactly once after releasing the lock"""
+    from harness import core, regen
+
+    return regen.check("throttle", core.REPO, core.LEAN)
+
+
 def corpus():
     return [
         # pinned tree: nothing is ever delayed (minimal failing case first)
